@@ -90,7 +90,16 @@ def build_harness(features=(), release=False):
                     f.write(_sha(lock_src))
         except OSError as e:
             raise BuildError("cannot copy Cargo.lock", str(e))
+        link = os.path.join(HARNESS, "repo-link")
+        try:
+            if not (os.path.islink(link) and os.readlink(link) == REPO):
+                if os.path.lexists(link):
+                    os.remove(link)
+                os.symlink(REPO, link)
+        except OSError as e:
+            raise BuildError("cannot link the repository into the harness", str(e))
         env = dict(os.environ)
+        env["VERIF_REPO"] = REPO
         env["CARGO_TARGET_DIR"] = tdir
         env["CARGO_NET_OFFLINE"] = "true"
         env.pop("RUSTFLAGS", None)
